@@ -84,6 +84,12 @@ func (r *renderer) redir(kind string, nOut *int) string {
 		return ">&9"
 	case "close":
 		return "2>&-"
+	case "dupback":
+		return ">&2"
+	case "dupin":
+		return "3<&0"
+	case "dupinback":
+		return "<&3"
 	}
 	panic("unknown redirection kind " + kind)
 }
@@ -146,7 +152,7 @@ func retargetsPipedStdin(p []Form) bool {
 	for i, f := range p {
 		if i > 0 {
 			for _, k := range f.Redirs {
-				if k == "filein" {
+				if k == "filein" || k == "dupinback" {
 					return true
 				}
 			}
@@ -155,6 +161,16 @@ func retargetsPipedStdin(p []Form) bool {
 			if retargetsPipedStdin(s) {
 				return true
 			}
+		}
+	}
+	return false
+}
+
+// dupFamily: a form with three redirections (an owned port duplicated and redirected back / again).
+func dupFamily(p []Form) bool {
+	for _, f := range p {
+		if len(f.Redirs) >= 3 {
+			return true
 		}
 	}
 	return false
@@ -555,7 +571,8 @@ func run(c *lib.Ctx) error {
 			continue
 		}
 		vs := []variant{{how: "plain"}}
-		for k := 1; k <= g.NPipes && k <= 3; k++ {
+		dup3 := dupFamily(g.Shape)
+		for k := 1; k <= g.NPipes && k <= 3 && !(dup3 && c.Quick()); k++ {
 			vs = append(vs, variant{how: fmt.Sprintf("start:%d", k), cancelAt: k})
 		}
 		if hasKind(g.Shape, "sleep") {
@@ -566,8 +583,8 @@ func run(c *lib.Ctx) error {
 		}
 		for _, v := range vs {
 			n := N
-			if v.how != "plain" {
-				n = N / 3
+			if v.how != "plain" || (dup3 && c.Quick()) {
+				n = N / 3 // the three-redirection family is large: fewer repetitions in the quick tier
 			}
 			vc, err := evaluateN(c, r, rd, g.Shape, v, n)
 			if err != nil {
@@ -670,13 +687,18 @@ func judge(c *lib.Ctx, dir string, cases []VCase) error {
 // ---- V generator: larger shapes over the full grammar
 
 func randRedirs(rng *rand.Rand, piped bool, rd *renderer) []string {
-	n := []int{0, 0, 0, 1, 1, 2}[rng.Intn(6)]
+	n := []int{0, 0, 0, 1, 1, 2, 3, 3}[rng.Intn(8)]
 	out := []string{}
+	hasDupin := false
 	for i := 0; i < n; i++ {
-		k := []string{"fileout", "fileout", "filein", "filefail", "dupok", "dupbad", "close"}[rng.Intn(7)]
-		if k == "filein" && piped && !rd.stdinRedirOK {
+		k := []string{"fileout", "fileout", "filein", "filefail", "dupok", "dupbad", "close", "dupok", "dupback", "dupback", "dupin", "dupinback"}[rng.Intn(12)]
+		if (k == "filein" || k == "dupinback") && piped && !rd.stdinRedirOK {
 			k = "fileout"
 		}
+		if k == "dupinback" && !hasDupin {
+			k = "dupin" // slot 3 may be inherited from an enclosing form: only redirect from it when this form made it
+		}
+		hasDupin = hasDupin || k == "dupin"
 		out = append(out, k)
 	}
 	return out
